@@ -127,6 +127,7 @@ structure Entry where
   intr : Bool
   ids : List Id
   dt : Nat
+  forced : List Id := []      -- `id!`: reported ready although nothing is queued (listeners: the accept that follows fails)
 
 def parseEntry (t : String) : Option Entry := do
   let (intr, rest) := if t.startsWith "I" then (true, (t.drop 1).toString) else (false, t)
@@ -134,8 +135,10 @@ def parseEntry (t : String) : Option Entry := do
     | [a] => some (a, 0)
     | [a, b] => b.toNat?.map (fun d => (a, d))
     | _ => none
-  let ids ← if idsT == "-" || idsT == "" then some [] else (idsT.splitOn ",").mapM (·.toNat?)
-  if !intr && idsT == "" then none else pure { intr := intr, ids := ids, dt := dt }
+  let toks := if idsT == "-" || idsT == "" then [] else idsT.splitOn ","
+  let ids ← toks.mapM (fun t => (if t.endsWith "!" then (t.dropEnd 1).toString else t).toNat?)
+  let forced := toks.filterMap (fun t => if t.endsWith "!" then (t.dropEnd 1).toString.toNat? else none)
+  if !intr && idsT == "" then none else pure { intr := intr, ids := ids, dt := dt, forced := forced }
 
 def nativeNonZero (n : Native) : Bool := n.inn || n.out || n.hup
 
@@ -172,7 +175,9 @@ def evStr (clk : Int) : Ev → String
 def pollIn (s : St) (timeout : Int) (e : Entry) : PollIn :=
   let evs := e.ids.eraseDups.filterMap fun i =>
     let n := nativeOf s i
-    if nativeNonZero n then some (i, n) else none
+    if nativeNonZero n then some (i, n)
+    else if e.forced.contains i && (s.listeners i).isSome && (lookup s.sockets i).isSome then some (i, { inn := true })
+    else none
   let efd := s.eventfd != 0
   { events := evs, eventfd := efd, dt := if evs.isEmpty && !efd then timeout else e.dt }
 
@@ -329,6 +334,14 @@ def stepLine (s : St) (tg : Tags) (ws : List String) : Option (St × String × T
   | ["dial", i] => do let s' := envStep s (.dial (← i.toNat?)); pure (s', out s' "ok", tg)
   | ["adv", d] => do let s' := envStep s (.advance (← d.toNat?)); pure (s', out s' "ok", tg)
   | ["cfail", i] => do let s' := envStep s (.connFail (← i.toNat?)); pure (s', out s' "ok", tg)
+  -- Server::clear() outside run()
+  | ["clear"] => let s' := if s.pc = .idle then clearAll s else s; some (s', out s' "ok", tg)
+  -- pair / listen / connect whose socket() fails: null result, nothing changes
+  | ["failmk", k] => if k == "pair" || k == "listen" || k == "connect" then some (s, out s "ok", tg) else none
+  -- socket options: no effect on the event loop
+  | ["opt", k, v] => do
+    let _ ← v.toNat?
+    if k == "keepalive" || k == "sndbuf" || k == "rcvbuf" || k == "reuse" then pure (s, out s "ok", tg) else none
   | ["runmt", d] => do
     -- a second thread calls interrupt() <d> microseconds after it was started, concurrently with run();
     -- no virtual time passes and the kernel reports nothing but the event descriptor
